@@ -278,6 +278,11 @@ Proof.
   - apply (ge_sf t s G).
 Qed.
 
+Lemma scope_cancel_idem s c b : (if s_cancelled (scopes s c) then s else scope_cancel s c b) = scope_cancel s c b.
+Proof. unfold scope_cancel. destruct (s_cancelled (scopes s c)); reflexivity. Qed.
+
+(* F23: a child that failed cancels the group's own scope (scope_cancel is a no-op on a scope whose cancel() has
+   been called); a child that merely ended cancelled cancels it only if it is not effectively cancelled *)
 Lemma run_task_done_eq s0 t :
   run_task_done s0 t =
   let s := set_running s0 None in
@@ -307,12 +312,15 @@ Lemma run_task_done_eq s0 t :
           | Some (FCanc _) =>
               if is_cancel e then s4 else
               let s5 := upd_group s4 g (add_exc t e) in
-              if eff_cancelled s5 (g_scope (groups s5 g)) then s5 else scope_cancel s5 (g_scope (groups s5 g)) false
+              scope_cancel s5 (g_scope (groups s5 g)) false
           | Some FPend =>
               match sf with Some f => fut_complete s4 f (FExc e) | None => s4 end
           | _ =>
-              let s5 := if is_cancel e then s4 else upd_group s4 g (add_exc t e) in
-              if eff_cancelled s5 (g_scope (groups s5 g)) then s5 else scope_cancel s5 (g_scope (groups s5 g)) false
+              if is_cancel e then
+                if eff_cancelled s4 (g_scope (groups s4 g)) then s4 else scope_cancel s4 (g_scope (groups s4 g)) false
+              else
+                let s5 := upd_group s4 g (add_exc t e) in
+                scope_cancel s5 (g_scope (groups s5 g)) false
           end
       | None =>
           match sf, sf_state with
@@ -321,7 +329,19 @@ Lemma run_task_done_eq s0 t :
           end
       end
   end.
-Proof. reflexivity. Qed.
+Proof.
+  unfold run_task_done. cbn zeta. cbv delta [tdcore td_grp td_rec add_exc] beta.
+  destruct (k_group (tasks (set_running s0 None) t)) as [g|]; [|reflexivity].
+  destruct (k_done (tasks (set_running s0 None) t)) as [[v|e|e]|]; try reflexivity.
+  - destruct (k_startfut (tasks (set_running s0 None) t)) as [f|].
+    + match goal with |- context [f_st (futs ?a f)] => destruct (f_st (futs a f)) end; try reflexivity;
+        destruct (is_cancel e); try reflexivity; apply scope_cancel_idem.
+    + destruct (is_cancel e); try reflexivity; apply scope_cancel_idem.
+  - destruct (k_startfut (tasks (set_running s0 None) t)) as [f|].
+    + match goal with |- context [f_st (futs ?a f)] => destruct (f_st (futs a f)) end; try reflexivity;
+        destruct (is_cancel e); try reflexivity; apply scope_cancel_idem.
+    + destruct (is_cancel e); try reflexivity; apply scope_cancel_idem.
+Qed.
 
 Lemma Inv_of_M s : MInv s -> running s = None -> Inv s.
 Proof. intros M H. split; auto. Qed.
@@ -384,6 +404,11 @@ Proof.
   { intros s5 M5 Hr5. destruct (eff_cancelled s5 _); [apply Inv_of_M; auto|].
     pose proof (ks_scope_cancel none_s none_t s5 (g_scope (groups s5 g)) false) as KS.
     apply Inv_of_M; [apply (M_kstar_none _ _ KS M5)|]. now rewrite (fr_running _ _ _ _ (kframe_kstar _ _ _ _ KS)). }
+  assert (Cancel_own : forall s5, MInv s5 -> running s5 = None ->
+            Inv (scope_cancel s5 (g_scope (groups s5 g)) false)).
+  { intros s5 M5 Hr5.
+    pose proof (ks_scope_cancel none_s none_t s5 (g_scope (groups s5 g)) false) as KS.
+    apply Inv_of_M; [apply (M_kstar_none _ _ KS M5)|]. now rewrite (fr_running _ _ _ _ (kframe_kstar _ _ _ _ KS)). }
   assert (Append : forall e, k_done (tasks s0 t) = Some (OExc e) -> MInv (upd_group s4 g (add_exc t e))).
   { intros e He. apply T_append; auto. now rewrite Hd4. }
   destruct (k_done (tasks s0 t)) as [[v|e|e]|] eqn:Ed; [| | |contradiction].
@@ -404,10 +429,10 @@ Proof.
         apply (T_close t _ T5). intros g0 e' _ _ H. rewrite fc_tasks, Hd4 in H. injection H as <-.
         right. exists f. rewrite fc_tasks, Hsf4. split; [reflexivity|].
         destruct (fc_spec s4 f (FExc e)) as [[H _]|[_ [Ef _]]]; [contradiction|]. rewrite Ef, upd_same. reflexivity.
-      * rewrite Hnc. apply Cancel_end; [apply Append; reflexivity|exact Hr4].
-      * rewrite Hnc. apply Cancel_end; [apply Append; reflexivity|exact Hr4].
-      * rewrite Hnc. apply Cancel_end; [apply Append; reflexivity|exact Hr4].
-    + rewrite Hnc. apply Cancel_end; [apply Append; reflexivity|exact Hr4].
+      * rewrite Hnc. apply Cancel_own; [apply Append; reflexivity|exact Hr4].
+      * rewrite Hnc. apply Cancel_own; [apply Append; reflexivity|exact Hr4].
+      * rewrite Hnc. apply Cancel_own; [apply Append; reflexivity|exact Hr4].
+    + rewrite Hnc. apply Cancel_own; [apply Append; reflexivity|exact Hr4].
   - (* cancelled *)
     destruct (Hoc e) as [Hc _]. specialize (Hc eq_refl).
     assert (Mc : MInv s4) by (apply Close_nc; intros e'; discriminate).
